@@ -1,6 +1,6 @@
 (** C15 — Resources are addressed by type and untouched by entity operations.
     Property theorems only; proofs in Proofs/Refine.v, Proofs/CloneEq.v, Proofs/SerdeL.v. *)
-From Brood Require Import Base World Multi Spec BaseFacts Inv Refine CloneEq SerdeL Res ResFacts.
+From Brood Require Import Base World Multi Spec BaseFacts Inv Refine CloneEq SerdeL Res ResFacts ResOrder ResOrderFacts.
 
 (** Frame: no entity operation alters, duplicates or loses a resource; a write
     through get_mut at position i changes position i only. *)
@@ -64,8 +64,7 @@ Print Assumptions C15_get_set.
 
 (** view_resources (canonical views in list order, then Reshape by successive Get):
     for every duplicate-free request, in whatever order, position j of the result is the
-    j-th requested resource.  (rustc accepts only some of these orders - an API limitation
-    noted in DESIGN.md - the model covers them all.) *)
+    j-th requested resource.  (Which of these orders type-check is [C15_every_order_accepted] below.) *)
 Theorem C15_views : forall res req, NoDup req -> (forall i, In i req -> i < length res) ->
   exists out, view_resources res req = Some out /\ length out = length req /\
     forall j i, nth_error req j = Some i -> nth_error out j = res_get res i.
@@ -79,3 +78,38 @@ Example C15_example :
   view_resources [10%N; 11%N; 12%N; 13%N] [3; 0; 2] = Some [13%N; 10%N; 12%N] /\
   view_resources [10%N; 11%N; 12%N; 13%N] [] = Some [].
 Proof. vm_compute. auto. Qed.
+
+(** "In whatever order views are requested": every duplicate-free request of resources of the list
+    type-checks, whatever its order ([Expanded] in resource/contains/views.rs, through which
+    view_resources, the resource views of queries and of systems all go).  This is finding F15
+    REPAIRED: the witness of each level's reshape is its own, which is read off the source
+    ([fact_resource_reshape_indices_per_level]). *)
+Lemma fact_per_level : fact_resource_reshape_indices_per_level = true.
+Proof. reflexivity. Qed.
+
+Theorem C15_every_order_accepted : forall rs vs, NoDup rs -> NoDup vs -> incl vs rs ->
+  res_views_accepted rs vs = true.
+Proof.
+  intros rs vs H1 H2 H3. unfold res_views_accepted. rewrite fact_per_level. exact (expanded_complete rs vs H1 H2 H3).
+Qed.
+Check (C15_every_order_accepted : forall rs vs, NoDup rs -> NoDup vs -> incl vs rs ->
+  res_views_accepted rs vs = true).
+Print Assumptions C15_every_order_accepted.
+
+(** ... and nothing outside the list is ever accepted. *)
+Theorem C15_accepted_in_list : forall rs vs, res_views_accepted rs vs = true -> incl vs rs.
+Proof. intros rs vs. exact (expanded_sound _ rs vs). Qed.
+Print Assumptions C15_accepted_in_list.
+
+(** As it was before the repair (the witness tied to the one of the remaining resources): rotations of
+    three views are rejected; of the 24 orders of four views 8 type-check. *)
+Theorem C15_orders_F15_before_the_repair :
+  exists rs vs, NoDup rs /\ NoDup vs /\ incl vs rs /\ expanded false rs vs = false.
+Proof.
+  exists [0; 1; 2], [1; 2; 0].
+  split; [repeat constructor; cbn; intuition lia|].
+  split; [repeat constructor; cbn; intuition lia|].
+  split; [intros y Hy; cbn in *; intuition|].
+  exact (proj1 tied_witness_rejects_rotation).
+Qed.
+Print Assumptions C15_orders_F15_before_the_repair.
